@@ -13,4 +13,4 @@ _D = os.path.join(os.path.dirname(os.path.abspath(__file__)), "props.d")
 PROPS = {}
 for _p in sorted(glob.glob(os.path.join(_D, "C*.json"))):
     PROPS[os.path.basename(_p)[:-5]] = json.load(open(_p))
-ENGINES = sorted({c["engine"] for c in PROPS.values()})
+ENGINES = sorted({e for c in PROPS.values() for e in (c.get("engines") or [c["engine"]])})
